@@ -248,7 +248,16 @@ def _c02_case(res: Result, cls: type, spec: describe.StructSpec, tree: dict, dis
     name = label or walk.class_path(cls)
     ref, layout = refcodec.encode(spec, tree)
     try:
-        inst = describe.tree_to_instance(spec, tree)
+        zone = None
+        if _has_timestamp(spec) and res.counters["cases"] % 2:
+            # the wire carries the instant: the zone a timestamp is expressed in (fixed offsets, zones with DST folds) must not matter
+            zone = _ZONES[res.counters["cases"] % len(_ZONES)]
+            res.count("cases_with_timestamps_in_other_zones")
+        describe.INSTANCE_TZ = zone
+        try:
+            inst = describe.tree_to_instance(spec, tree)
+        finally:
+            describe.INSTANCE_TZ = None
         got = kio_encode(cls, inst)
     except Exception as exc:  # noqa: BLE001
         res.violation(f"encode-raises:{cls.__name__}:{_exc_key(exc)}",
@@ -270,6 +279,34 @@ def _c02_case(res: Result, cls: type, spec: describe.StructSpec, tree: dict, dis
         distinct.add(hashlib.sha256(name.encode() + got).digest()[:12])
     if res.counters["cases"] % 4001 == 1:
         res.sample({"class": name, "tree": tree, "encoding": got, "layout": layout[:12]})
+
+
+def _mk_zones() -> list:
+    import datetime as _dt
+
+    zones = [_dt.timezone(_dt.timedelta(hours=14)), _dt.timezone(_dt.timedelta(hours=-11, minutes=-30)), _dt.timezone.utc]
+    try:
+        import zoneinfo
+
+        for z in ("Europe/Berlin", "America/New_York", "Australia/Lord_Howe", "Asia/Kolkata"):
+            try:
+                zones.append(zoneinfo.ZoneInfo(z))
+            except Exception:  # noqa: BLE001
+                pass
+    except ImportError:
+        pass
+    return zones
+
+
+_ZONES = _mk_zones()
+_ts_cache: dict[int, bool] = {}
+
+
+def _has_timestamp(spec: describe.StructSpec) -> bool:
+    k = id(spec)
+    if k not in _ts_cache:
+        _ts_cache[k] = any((fs.kind == "prim" and fs.ktype == "datetime_i64") or (fs.kind == "struct" and _has_timestamp(fs.struct)) for fs in spec.fields)
+    return _ts_cache[k]
 
 
 def derive_class(cls: type, tag_map: dict[int, int], reverse_tagged: bool) -> type:
